@@ -430,7 +430,9 @@ def broken_docs(r):
             out.append(('illegal-string-escape', only_str.replace('"MARK"', '"MA%sRK"' % esc, 1)))
         for esc in ('\\q', '\\x41', '\\"', '\\u12', '\\ ', '\\$', '\\0', '\\N', '\\T', '\\B', '\\F', '\\R', '\\e', '\\,', '\\<'):
             out.append(('illegal-uri-escape', text.replace('`MARK`', '`MA%sRK`' % esc, 1)))
-        for badname in ('Mk', '9k', '_k', 'MK', '-k'):
+        # (names with a letter or digit outside ASCII after a legal first letter: a regex written with \w takes them)
+        for badname in ('Mk', '9k', '_k', 'MK', '-k', u'si\u00e8ge', u'gr\u00f6\u00dfe', u't\u00b2', u'c\u0663', u'a\u00e9', u'k\u0416', u'n\uff11',
+                        u'x\u00aa'):
             out.append(('illegal-tag-name', text.replace(' mk:', ' %s:' % badname, 1)))
             out.append(('illegal-tag-name', text.replace('cx cm:', 'cx %s:' % badname, 1)))
             out.append(('illegal-column-name', text.replace('\ncx ', '\n%s ' % badname, 1)))
@@ -450,6 +452,11 @@ def broken_docs(r):
             out.append(('unbalanced-brackets', text[:j] + opener + text[j:]))
         i = text.rfind(closer)
         out.append(('unbalanced-brackets', text[:i] + closer + text[i:]))
+    # names of extended-string types and dict keys are names too
+    for bad in (u'Typ\u00e9("x")', u'T\u00b2("x")', u'\u00c9t("x")', u'X\u0663("x")'):
+        out.append(('illegal-tag-name', 'ver:"3.0"\na\n%s\n' % bad))
+    for bad in (u'{si\u00e8ge:1}', u'{k\u00e9}', u'{a:1 b\u00b2:2}'):
+        out.append(('illegal-tag-name', 'ver:"3.0"\na\n%s\n' % bad))
     # 3.0-only constructs under ver 2.0
     for t in ('NA', '[1,2]', '[]', '{a:1}', '{}', '{a}', 'Type("x")', 'hex("00")', '<<ver:"3.0"\ni\n1\n>>', '<<ver:"2.0"\ni\n1\n>>', '[NA]'):
         out.append(('v3-construct-under-2.0', 'ver:"2.0"\na,b\n%s,1\n' % t))
